@@ -129,8 +129,9 @@ def _h_cert(eng, case):
         d1 = _dt.datetime(*DATES[case['d1']])
     try:
         if mode == 'derive_text':
-            name, wire = sv.derive_cert(key_name_in, 'issuer1', pub, signer, d0, case['secs'])
-            issuer = bytes(Component.from_str('issuer1'))
+            itext = case.get('issuer_text', 'issuer1')          # a text issuer id is one URI component
+            name, wire = sv.derive_cert(key_name_in, itext, pub, signer, d0, case['secs'])
+            issuer = bytes(Component.from_str(itext))
             exp_nb, exp_na = fmt(d0), fmt(d0 + _dt.timedelta(seconds=case['secs']))
         elif mode == 'derive_comp':
             ic = bwrap([8, 2] + blist(eng.bytes('issuer', 2)))
@@ -291,6 +292,8 @@ def cases(tier, seed):
         for mode in ('new', 'derive_text') if quick else ('new', 'derive_text', 'derive_comp', 'self', 'sign_req'):
             cs.append(('cert', dict(base, pubkey='elastic', max=70000 if quick else 2 ** 20, signer=kind, mode=mode,
                                     rmin=rmin), {'weight': 30}))
+    for itext in ('CA%2D1', 'Root%20CA', '32=site', 'v=7', 'seg=0', '8=a', '%00', 'a.b~c-d_e'):
+        cs.append(('cert', dict(base, signer='hmac', mode='derive_text', issuer_text=itext), {'weight': 2}))
     for kind in ('ecdsa', 'rsa', 'ed25519', 'hmac'):
         for how in ('assign', 'assign-list'):
             cs.append(('cert', dict(base, signer=kind, mode='new', relocate=how, rmin=70), {'weight': 5}))
